@@ -8,11 +8,18 @@
 (***************************************************************************)
 EXTENDS OptionLifecycle, Json
 
-CONSTANTS MaxLen, Mode          \* Mode: "full" (model checking) or "replay" (histories for the CLI harness)
+\* Mode: "full" / "fullren" / "fullpair" (model checking: the original alphabet / the deprecated options, order-dependent
+\* pairs, late failures and the deleted option file / longer histories over one pair at a time) or "replay" / "replayren" / "replaypair" (histories for the CLI harness)
+CONSTANTS MaxLen, Mode
 VARIABLES file, st, hist, tags
 vars == <<file, st, hist, tags>>
 
-Alphabet == IF Mode = "full" THEN FullAlphabet ELSE ReplayAlphabet
+Alphabet == CASE Mode = "full" -> FullAlphabet [] Mode = "fullren" -> FullRenAlphabet [] Mode = "fullpair" -> FullPairAlphabet [] Mode = "replay" -> ReplayAlphabet
+              [] Mode = "replayren" -> ReplayRenAlphabet [] Mode = "replaypair" -> ReplayPairAlphabet
+Exporting == Mode \in {"replay", "replayren", "replaypair"}
+\* "replaypair": all assignments of a history concern one pair (old name, replacement)
+PairOf(k) == IF k \in Slaves THEN k ELSE IF k \in Masters THEN SlaveOf(k) ELSE k
+Focused(h, ev) == Mode \in {"replaypair", "fullpair"} => Cardinality({PairOf(k) : k \in UNION ({DOMAIN h[n].D : n \in 1..Len(h)} \cup {DOMAIN ev.D})}) <= 1
 
 \* which situations of the laws a history exercises (only tracked for the exported histories, so that the
 \* quick tier can take a sample in which every situation occurs)
@@ -60,14 +67,42 @@ NewTags(f, s, ev, s2, old) ==
     \cup (IF ev.a = "Configure" /\ (s.ch # f.ch \/ (s.x # None) # f.x) THEN {"configure-after-edit"} ELSE {})
     \cup (IF ev.a \in {"Configure", "Reconfigure"} /\ "dl" \in DOMAIN ev.D /\ s.subdl # None THEN {"global-change-under-override"} ELSE {})
     \cup (IF ev.a \in {"Configure", "Reconfigure"} /\ "popt" \in DOMAIN ev.D /\ s.sp = None THEN {"parent-change-while-yielding"} ELSE {})
+    \* ---- deprecated options / order-dependent pairs ----
+    \* the old name is given the value it holds already while the replacement holds another one (per pair and command)
+    \cup {ev.a \o ":old-name-unchanged-replacement-differs:" \o m : m \in {m \in Masters \cap DOMAIN ev.D :
+              ev.a \in {"Configure", "Reconfigure"} /\ s.o[m] = ev.D[m] /\ s.o[SlaveOf(m)] # Forward(m, ev.D[m])}}
+    \cup {ev.a \o ":old-name-given:" \o m : m \in {m \in Masters \cap DOMAIN ev.D : ev.a \in AssignActions /\ s2.o[m] # s.o[m]}}
+    \cup {"replacement-given-after-old-name:" \o k : k \in {k \in Slaves \cap DOMAIN ev.D : ev.a \in AssignActions /\ s.cmd[Master[k]] # None}}
+    \cup {"old-name-given-after-replacement:" \o m : m \in {m \in Masters \cap DOMAIN ev.D : ev.a \in AssignActions /\ s.cmd[SlaveOf(m)] # None}}
+    \* the order of a pair flips while both are recorded (the later one must decide at --wipe)
+    \cup {"order-flipped:" \o k : k \in {k \in Slaves : ev.a \in AssignActions /\ s.exists /\ s.cmd[k] # None /\ s.cmd[Master[k]] # None
+                                                        /\ ((k \in s.late /\ Master[k] \in DOMAIN ev.D) \/ (k \notin s.late /\ k \in DOMAIN ev.D))}}
+    \cup {"wipe-after-order-flip:" \o k : k \in {k \in Contested(s) : ev.a = "Wipe" /\ ("order-flipped:" \o k) \in old}}
+    \cup {"wipe-old-name-last:" \o k : k \in {k \in Contested(s) : ev.a = "Wipe" /\ k \notin s.late}}
+    \cup {"wipe-replacement-last:" \o k : k \in {k \in Contested(s) : ev.a = "Wipe" /\ k \in s.late}}
+    \cup {"reconfigure-with-both-recorded:" \o k : k \in {k \in Contested(s) : ev.a = "Reconfigure"}}
+    \cup {"value-map-given:" \o k : k \in {k \in RenKeys \cap DOMAIN ev.D : ev.a \in AssignActions /\ MapValue(k, ev.D[k]) # ev.D[k]}}
+    \cup {"warn-only-form-given:" \o k : k \in {"dall", "dsome"} \cap DOMAIN ev.D}
+    \cup (IF ev.a = "Wipe" /\ \E k \in RenKeys : s.cmd[k] # None /\ MapValue(k, s.cmd[k]) # s.cmd[k] THEN {"wipe-after-value-map"} ELSE {})
+    \cup (IF ev.a = "Wipe" /\ \E k \in {"dall", "dsome"} : s.cmd[k] # None THEN {"wipe-after-warn-only-form"} ELSE {})
+    \* ---- a failing postconf script: everything has been configured and written when the command fails ----
+    \cup (IF ev.a = "SetupFailPost" THEN {"late-failed-setup" \o (IF ev.D = Empty THEN "" ELSE ":with-D")} ELSE {})
+    \cup (IF ev.a = "ReconfigureFailPost" THEN {"late-failed-reconfigure" \o (IF ev.D = Empty THEN "" ELSE ":with-D")} ELSE {})
+    \cup (IF ev.a = "Setup" /\ "late-failed-setup:with-D" \in old THEN {"setup-after-late-failed-setup"} ELSE {})
+    \cup (IF ev.a = "Wipe" /\ "late-failed-reconfigure:with-D" \in old THEN {"wipe-after-late-failed-reconfigure"} ELSE {})
+    \* ---- the option file of the top-level project is deleted / written again ----
+    \cup (IF s.exists /\ s.ar # None /\ s2.ar = None THEN {ev.a \o ":option-file-deleted"} ELSE {})
+    \cup (IF s.exists /\ s.ar = None /\ s2.ar # None THEN {ev.a \o ":option-file-restored"} ELSE {})
+    \cup (IF ev.a = "Setup" /\ ~f.present THEN {"setup-without-option-file"} ELSE {})
 
 Init == file = InitFile /\ st = NoDir /\ hist = <<>> /\ tags = {}
 Next == /\ Len(hist) < MaxLen
         /\ \E ev \in Alphabet :
               /\ Enabled(file, st, ev)
+              /\ Focused(hist, ev)
               /\ \E p \in Step(file, st, ev) :
                     /\ file' = p[1] /\ st' = p[2]
-                    /\ tags' = IF Mode = "replay" THEN tags \cup NewTags(file, st, ev, p[2], tags) ELSE tags
+                    /\ tags' = IF Exporting THEN tags \cup NewTags(file, st, ev, p[2], tags) ELSE tags
               /\ hist' = Append(hist, ev)
 Spec == Init /\ [][Next]_vars
 
@@ -84,34 +119,67 @@ CreationDefault(h) == FileAt(h, CHOOSE n \in Creations(h) : \A m \in Creations(h
 Given(key) == LastGiven(hist, key)
 
 \* ---- state invariants: "the last value the user gave, else the default it was created with" ------------
-ValuesValid == st.exists => (st.v \in st.ch /\ st.dl \in DlValues /\ (st.subdl = None \/ st.subdl \in DlValues) /\ st.lv \in st.lr)
+NoFileEdit == ~HasEdit(hist, {"delfile"})
+ValuesValid == st.exists => (/\ (st.v # None => st.v \in st.ch) /\ st.dl \in DlValues /\ (st.subdl = None \/ st.subdl \in DlValues)
+                             /\ (st.lv # None => st.lv \in st.lr)
+                             \* the project options are there together or not at all
+                             /\ (st.v = None) = (st.ar = None) /\ (st.lv = None) = (st.ar = None) /\ (st.ar = None => st.x = None)
+                             /\ \A k \in ProjRenKeys : (st.o[k] = None) = (st.ar = None))
 LevelIsLastGivenElseDefault ==
-    (st.exists /\ ~HasEdit(hist, {"range"})) => st.lv = (IF Given("level") = None THEN LevelDefault ELSE Given("level"))
+    (st.exists /\ ~HasEdit(hist, {"range"}) /\ NoFileEdit) => st.lv = (IF Given("level") = None THEN LevelDefault ELSE Given("level"))
 DlIsLastGivenElseDefault == st.exists => st.dl = (IF Given("dl") = None THEN DlDefault ELSE Given("dl"))
 PoptIsLastGivenElseCreationDefault ==
-    (st.exists /\ ~HasEdit(hist, {"choices"})) => st.v = (IF Given("popt") = None THEN CreationDefault(hist) ELSE Given("popt"))
-ArrIsLastGivenElseDefault == st.exists => st.ar = (IF Given("arr") = None THEN ArrDefault ELSE Given("arr"))
+    (st.exists /\ ~HasEdit(hist, {"choices"}) /\ NoFileEdit) => st.v = (IF Given("popt") = None THEN CreationDefault(hist) ELSE Given("popt"))
+ArrIsLastGivenElseDefault == (st.exists /\ NoFileEdit) => st.ar = (IF Given("arr") = None THEN ArrDefault ELSE Given("arr"))
+\* deprecated options: every option has the last value it RECEIVED - under its own name (through its value map) or,
+\* a replacement option, under the old name - else its default.  This holds after every command, --wipe included.
+ReceivedLastElseDefault ==
+    (st.exists /\ NoFileEdit) => \A k \in RenKeys : st.o[k] = (IF LastReceived(hist, k) = None THEN RenDefault(k) ELSE LastReceived(hist, k))
 XoptIsLastGivenElseDefault ==
     (st.exists /\ st.x # None /\ ~HasEdit(hist, {"removex"})) => st.x = (IF Given("xopt") = None THEN XDefault ELSE Given("xopt"))
 \* dropping an override returns the subproject to the inherited value; a yielding option takes the parent's value
 DropOverrideInherits ==
     st.exists => /\ Proj(st).subdl = (IF Given("subdl") = None THEN st.dl ELSE Given("subdl"))
-                 /\ (~HasEdit(hist, {"subchoices"}) => Proj(st).sp = (IF Given("subpopt") = None THEN st.v ELSE Given("subpopt")))
-                 /\ (Given("subpopt") = None => Proj(st).sp = st.v)
+                 /\ ((~HasEdit(hist, {"subchoices"}) /\ st.v # None /\ ~st.orph) => Proj(st).sp = (IF Given("subpopt") = None THEN st.v ELSE Given("subpopt")))
+                 /\ ((Given("subpopt") = None /\ st.v # None /\ ~st.orph) => Proj(st).sp = st.v)
                  /\ (Given("subpopt") # None => st.sp # None)          \* an explicit value stays explicit until -U
-                 /\ Proj(st).sf = (IF Given("subflag") = None THEN FlagParent ELSE Given("subflag"))
+                 /\ ((st.v # None /\ ~st.orph) => Proj(st).sf = (IF Given("subflag") = None THEN FlagParent ELSE Given("subflag")))
 RecordedCmdlineIsWhatTheUserGave == st.exists => \A k \in Keys : st.cmd[k] = Given(k)
 
 \* ---- action properties --------------------------------------------------------------------------------
 Stepped == Len(hist') = Len(hist) + 1
 FailedStepIsNoop == [][(Stepped /\ ~Last(hist').ok) => (st' = st /\ file' = file)]_vars
 EditTouchesNothingPersisted == [][(Stepped /\ Last(hist').a = "Edit") => st' = st]_vars
-\* --wipe = a fresh setup with everything the user gave so far, on the current option file
+\* --wipe = a fresh setup on the current option file followed by everything the user gave and dropped so far, IN THE
+\* ORDER of the history (the "recorded command lines"); stated over the hidden history, not over cmd / late
+RECURSIVE Redo(_, _, _)
+Redo(s, h, n) == IF n > Len(h) THEN s
+                 ELSE LET ev == h[n] IN
+                      Redo(IF ev.ok /\ ev.a \in AssignActions THEN Apply(s, ev.D) ELSE IF ev.a = "ConfigureU" THEN Unset(s, ev.k) ELSE s, h, n + 1)
 WipeIsFreshSetupWithWhatTheUserGave ==
     [][(Stepped /\ Last(hist').a = "Wipe") =>
-          st' = Apply(Fresh(file', EmptyCmd), [k \in {k \in Keys : LastGiven(hist', k) # None} |-> LastGiven(hist', k)])]_vars
+          LET r == Redo(Fresh(file', EmptyCmd, {}), hist', 1) IN st' = r]_vars
+\* ... so a --wipe changes no value of the deprecated options and of the buildtype / debug pair
+WipeKeepsReceivedValues == [][(Stepped /\ Last(hist').a = "Wipe" /\ file'.present /\ st.ar # None) => st'.o = st.o]_vars
+\* giving the old name IS giving the new name: the replacement has the value it would have been given directly
+OldNameGivesNewName ==
+    [][(Stepped /\ Last(hist').ok /\ Last(hist').a \in AssignActions) =>
+          \A m \in (Masters \ {"bt"}) \cap DOMAIN Last(hist').D :
+              LET ev == Last(hist') s == SlaveOf(m) IN
+              /\ st'.o[m] = ev.D[m]
+              /\ st'.o[s] = Apply(IF ev.a = "Setup" THEN Fresh(file, EmptyCmd, {}) ELSE Sync(st, file), Single(s, ev.D[m])).o[s]]_vars
+\* a deleted option file: after the next reconfigure / wipe none of its options is left; a re-created one gives defaults
+DeletedFileRemovesItsOptions ==
+    [][(Stepped /\ Last(hist').a \in {"Reconfigure", "Wipe", "Setup"}) =>
+          /\ (st'.ar # None) = file'.present /\ (st'.v # None) = file'.present /\ (st'.lv # None) = file'.present
+          /\ \A k \in ProjRenKeys : (st'.o[k] # None) = file'.present]_vars
+RestoredFileGivesDefaults ==
+    [][(Stepped /\ st.exists /\ st.ar = None /\ st'.ar # None /\ Last(hist').a # "Wipe") =>
+          LET ev == Last(hist') IN
+          /\ ("arr" \notin DOMAIN ev.D => st'.ar = ArrDefault) /\ ("popt" \notin DOMAIN ev.D => st'.v = file'.def)
+          /\ \A k \in ProjRenKeys : (k \notin DOMAIN ev.D /\ ~(k \in Slaves /\ Master[k] \in DOMAIN ev.D)) => st'.o[k] = RenDefault(k)]_vars
 ChoiceChangeKeepsValidValue ==
-    [][(Stepped /\ st.exists /\ st'.exists /\ st'.ch # st.ch /\ Last(hist').a # "Wipe" /\ "popt" \notin DOMAIN Last(hist').D)
+    [][(Stepped /\ st.exists /\ st'.exists /\ st'.ch # st.ch /\ Last(hist').a # "Wipe" /\ "popt" \notin DOMAIN Last(hist').D /\ st.v # None /\ st'.v # None)
           => st'.v = (IF st.v \in st'.ch THEN st.v ELSE file'.def)]_vars
 \* the subproject's own option file: the value the user gave the subproject explicitly is kept when still a choice,
 \* else replaced by the subproject's default; it never goes back to following the parent without -U
@@ -121,13 +189,13 @@ SubChoiceChangeKeepsExplicitValue ==
           => st'.sp = (IF st.sp = None THEN None ELSE IF st.sp \in st'.sch THEN st.sp ELSE SubDefault)]_vars
 \* after an edited range has been processed the stored value lies inside it: kept when still inside, else the default
 RangeChangeKeepsValidValue ==
-    [][(Stepped /\ st.exists /\ st'.exists /\ st'.lr # st.lr /\ Last(hist').a # "Wipe" /\ "level" \notin DOMAIN Last(hist').D)
+    [][(Stepped /\ st.exists /\ st'.exists /\ st'.lr # st.lr /\ Last(hist').a # "Wipe" /\ "level" \notin DOMAIN Last(hist').D /\ st.lv # None /\ st'.lv # None)
           => st'.lv = (IF st.lv \in st'.lr THEN st.lv ELSE LevelDefault)]_vars
-ProcessedRangeIsTheDeclaredOne == [][(Stepped /\ Last(hist').a \in {"Reconfigure", "Wipe", "Setup"}) => st'.lr = file'.lr]_vars
+ProcessedRangeIsTheDeclaredOne == [][(Stepped /\ Last(hist').a \in {"Reconfigure", "Wipe", "Setup"} /\ file'.present) => st'.lr = file'.lr]_vars
 NewOptionGetsDefault ==
     [][(Stepped /\ st.exists /\ st.x = None /\ st'.x # None /\ Last(hist').a # "Wipe" /\ "xopt" \notin DOMAIN Last(hist').D)
           => st'.x = XDefault]_vars
-RemovedOptionVanishes == [][(Stepped /\ Last(hist').a \in {"Reconfigure", "Wipe"}) => ((st'.x # None) = file'.x)]_vars
+RemovedOptionVanishes == [][(Stepped /\ Last(hist').a \in {"Reconfigure", "Wipe"}) => ((st'.x # None) = (file'.x /\ file'.present))]_vars
 OnlyAskedValuesChange ==
     [][(Stepped /\ st.exists /\ st'.exists /\ Last(hist').a # "Wipe") =>
           LET ev == Last(hist') IN
@@ -137,10 +205,12 @@ OnlyAskedValuesChange ==
           /\ (st'.sf # st.sf => ("subflag" \in DOMAIN ev.D \/ (ev.a = "ConfigureU" /\ ev.k = "subflag")))
           /\ (st'.v # st.v => ("popt" \in DOMAIN ev.D \/ st'.ch # st.ch))
           /\ (st'.lv # st.lv => ("level" \in DOMAIN ev.D \/ st'.lr # st.lr))
-          /\ (st'.ar # st.ar => "arr" \in DOMAIN ev.D)]_vars
+          /\ (st'.ar # st.ar => ("arr" \in DOMAIN ev.D \/ (st'.ar = None) # (st.ar = None)))
+          /\ \A k \in RenKeys : st'.o[k] # st.o[k] =>
+                (k \in DOMAIN ev.D \/ (k \in Slaves /\ Master[k] \in DOMAIN ev.D) \/ (st'.ar = None) # (st.ar = None))]_vars
 
 \* ---- export of the complete histories (Mode = "replay") ----------------------------------------------
 EvJson(ev) == [a |-> ev.a, D |-> [k \in DOMAIN ev.D |-> ev.D[k]], k |-> ev.k, ok |-> ev.ok,
                e |-> [t |-> ev.e.t, ch |-> ev.e.ch, def |-> ev.e.def]]
-EmitHistories == (Mode = "replay" /\ Len(hist) = MaxLen) => PrintT(ToJson([h |-> [i \in 1..Len(hist) |-> EvJson(hist[i])], tags |-> tags]))
+EmitHistories == (Exporting /\ Len(hist) = MaxLen) => PrintT(ToJson([h |-> [i \in 1..Len(hist) |-> EvJson(hist[i])], tags |-> tags]))
 =============================================================================
